@@ -609,6 +609,8 @@ func (t *c16task) diffCase(roots []c16H, as []c16Action, cseed int64, modelSampl
 	}
 	t.eval("diff "+name+" "+c16Hex(oldRoot)+c16Hex(newRoot), len(as) > 0)
 	t.count("diff:class:" + class)
+	// the model's SPECIFICATION of what the actions denote (applyActions) against the oracle
+	t.model(fmt.Sprintf("rhp-diff-apply %s %s", asS, rootsHex), "ok "+c16Hex(newRoot))
 	acts, _ := c16GoActions(as)
 	var tree, leaf []c16H
 	if p, msg := fw.Recover(func() { tree, leaf = rhp2.BuildDiffProof(acts, roots) }); p {
